@@ -102,6 +102,10 @@ def inject(unit, ws):
             s = s[:pos] + t + s[pos:]
         open(path, 'w').write(s)
     for relpath, text in unit.appends:
+        # harness items are made pub(crate) so that a playback test can name them by absolute path (cfg(kani) text only)
+        text = re.sub(r'(?m)^(\s*)mod (\w+) \{', r'\1pub(crate) mod \2 {', text)
+        text = re.sub(r'(macro_rules! \w+ \{ \(\$m:ident[^\n]*=> \{ )mod \$m \{', r'\1pub(crate) mod $m {', text)
+        text = re.sub(r'(#\[kani::proof\](?:\s*#\[[^\]]*\])*\s*)fn ', r'\1pub(crate) fn ', text)
         path = os.path.join(ws, relpath)
         with open(path, 'a') as f:
             f.write('\n' + text + '\n')
@@ -319,7 +323,12 @@ def native_replay(ws, unit, failures, timeout=1500):
     path = os.path.join(ws, relpath)
     src = open(path).read()
     k = src.rstrip().rfind('}')
-    body = '\n'.join('    ' + l for f, t in tests for l in t.split('\n'))
+    def qualify(f, t):
+        # name the harness by absolute path: the test lives in the last appended module, the harness possibly elsewhere
+        hname = f['harness']
+        short = hname.split('::')[-1]
+        return re.sub(r'(kani::concrete_playback_run\(concrete_vals,\s*)%s\)' % re.escape(short), r'\1crate::%s::%s)' % (unit.module, hname), t)
+    body = '\n'.join('    ' + l for f, t in tests for l in qualify(f, t).split('\n'))
     open(path, 'w').write(src[:k] + body + '\n}\n')
     cmd = ['cargo', 'kani', 'playback', '-Z', 'concrete-playback', '-p', unit.crate] + list(unit.playback_args) + ['--', 'kani_concrete_playback_']
     try:
